@@ -79,8 +79,12 @@ def make_case(seed, i):
     prof = dict(name="c07", budget_kinds=["small", "small", "mid"], budget_min=14, budget_max=70, x0_w=[4, 1, 5, 0], noise_w=[4, 2, 3, 2],
                 noise_rng_global=0.6, cons_p=0.2, fam_w=[6, 2, 1, 1, 1, 1, 1], knobs=dict(noise_final_samples=0.5))
     S = gen.make_scenario(seed, prof, i)
+    if rng.random() < 0.15:
+        S["options"]["random_seed"] = 0          # a valid and popular seed; falsy in Python
     pre = gen_ops(rng, seed, f"pre{i}", rng.randrange(0, 5), S)
     between = gen_ops(rng, seed, f"btw{i}", rng.randrange(0, 3), S) if rng.random() < 0.5 else []
+    if S["options"].get("random_seed") == 0 and not any(o["op"] in ("draw", "reseed", "opt", "construct") for o in between):
+        between = between + [dict(op="draw", n=rng.randrange(1, 50), normal=rng.randrange(0, 5))]
     alt_clock = dict(mode=gen._choice(rng, ["zero", "long", "rand"]), seed=rng.randrange(1, 10**6), lo=0.0, hi=50.0,
                      jumps=[dict(at_call=rng.randrange(1, 40), kind=gen._choice(rng, ["in", "post"]), delta=gen._choice(rng, [-3600.0, 86400.0, -5.0]))])
     return dict(S=S, pre=pre, between=between, alt_clock=alt_clock, index=i)
